@@ -463,6 +463,27 @@ func rulePublishBeforeWake(c *Ctx, rule string) {
 		c.check(esc == nil, rule, "receiver."+m+"() in "+w.Short(fn)+" after publication", w.At(in), "every path to the wake-up passes close(doneSignal)", "receiver."+m+"() can run before the trailers are stored and doneSignal is closed: a reader woken here returns EOF/status to the caller, whose immediate Trailer() sees nil and whose grpc.Trailer target is written concurrently (data race)")
 	})
 	c.floor(rule, n, 1, "receiver wake-ups in the finishing function")
+	// the stream context's cancel is a wake-up too (Header() and a sender waiting for credit select on it): it runs after the
+	// publication — deferred after the marker was won, or called on paths that passed close(doneSignal)
+	nCancel := 0
+	allInstrs(fn, func(in ssa.Instruction) {
+		call, ok := in.(ssa.CallInstruction)
+		if !ok || call.Common().IsInvoke() || staticCallee(call) != nil {
+			return
+		}
+		fr, _, isF := loadedField(call.Common().Value)
+		if !isF || fr.Type != a.CS.Obj().Name() || !strings.HasSuffix(types.TypeString(call.Common().Value.Type(), nil), "context.CancelFunc") {
+			return
+		}
+		nCancel++
+		if _, isDefer := in.(*ssa.Defer); isDefer {
+			c.ok(rule, "stream context cancelled after publication", w.At(in), "deferred: runs after close(doneSignal)")
+			return
+		}
+		esc := pathAvoiding(fn, nil, func(x ssa.Instruction) bool { return x == in }, func(x ssa.Instruction) bool { return x == ssa.Instruction(cd) })
+		c.check(esc == nil, rule, "stream context cancelled after publication", w.At(in), "every path to the cancel passes close(doneSignal)", "the stream's context is cancelled before headers/trailers are published and the done signal is closed: a caller blocked in Header() (or a sender waiting for credit) wakes on ctx.Done(), finds nothing published and reports the context error although the RPC completed")
+	})
+	c.floor(rule, nCancel, 1, "cancels of the stream context in the finishing function")
 	// `true` is returned only after publication
 	okRet, nTrue := true, 0
 	forEachReturnValue(fn, 0, func(v ssa.Value, at ssa.Instruction) {
